@@ -544,6 +544,19 @@ func (l *line) judge(res *vx.Result, sigPrefix string) {
 			return
 		}
 		acc := !s.Raw && l.B.rec.accepted(s.Key)
+		if acc && s.Phase == "after" {
+			// Published after SetConsensusHandler had returned: "the local handler" is the one installed then. An accept
+			// by the handler that was replaced or removed does not count (and it must not have been consulted at all).
+			acc = false
+			for _, c := range l.B.rec.callsFor(s.Key) {
+				if c.Fb == gexchange.FeedbackAccepted && strings.HasPrefix(c.Handler, "new.") {
+					acc = true
+				}
+			}
+			if !acc {
+				res.Count("line_relayed_on_a_replaced_handlers_accept", 1)
+			}
+		}
 		if acc {
 			res.Count("line_relayed_after_accept", 1)
 			continue
